@@ -57,6 +57,11 @@ Theorem c18_combine_empty : forall c, steps c = [] -> begin_ok c = true ->
   transact_comb c = ([EBegin; ECommit], if commit_ok c then RNil else RCommitErr).
 Proof. exact combine_empty_lem. Qed.
 
+(* a step that finished the transaction itself (and returned nil): nothing is committed and the caller gets an error *)
+Theorem c18_finished_tx_is_reported : forall c, begin_ok c = true -> (exists i, first_bad 0 (steps c) = Some (i, SDoneRb)) ->
+  snd (transact c) = RTxDone /\ count is_commit (fst (transact c)) = 0.
+Proof. exact finished_tx_is_reported_lem. Qed.
+
 Print Assumptions c18_model_holds.
 Print Assumptions c18_accept_sound.
 Print Assumptions c18_transact_finished_once.
@@ -69,3 +74,4 @@ Print Assumptions c18_empty_begins_nothing.
 Print Assumptions c18_begin_failure_runs_nothing.
 Print Assumptions c18_combine_spec.
 Print Assumptions c18_combine_empty.
+Print Assumptions c18_finished_tx_is_reported.
